@@ -18,14 +18,17 @@ import (
 )
 
 type pkg struct {
-	name   string
-	files  map[string]*ast.File
-	consts map[string]ast.Expr // const name -> expression (iota substituted lazily)
-	iotas  map[string]int
-	ctype  map[string]string
-	vars   map[string]ast.Expr
-	funcs  map[string]*ast.FuncDecl
+	name    string
+	files   map[string]*ast.File
+	consts  map[string]ast.Expr // const name -> expression (iota substituted lazily)
+	iotas   map[string]int
+	ctype   map[string]string
+	vars    map[string]ast.Expr
+	funcs   map[string]*ast.FuncDecl
+	structs map[string][]sfield // struct type → fields in declaration order
 }
+
+type sfield struct{ name, typ string }
 
 var fset = token.NewFileSet()
 var missing []string
@@ -34,7 +37,7 @@ func miss(format string, a ...any) { missing = append(missing, fmt.Sprintf(forma
 
 func load(repo, name string) *pkg {
 	p := &pkg{name: name, files: map[string]*ast.File{}, consts: map[string]ast.Expr{}, iotas: map[string]int{},
-		ctype: map[string]string{}, vars: map[string]ast.Expr{}, funcs: map[string]*ast.FuncDecl{}}
+		ctype: map[string]string{}, vars: map[string]ast.Expr{}, funcs: map[string]*ast.FuncDecl{}, structs: map[string][]sfield{}}
 	matches, _ := filepath.Glob(filepath.Join(repo, name, "*.go"))
 	sort.Strings(matches)
 	for _, m := range matches {
@@ -62,6 +65,20 @@ func load(repo, name string) *pkg {
 				}
 				p.funcs[n] = d
 			case *ast.GenDecl:
+				if d.Tok == token.TYPE {
+					for _, sp := range d.Specs {
+						ts := sp.(*ast.TypeSpec)
+						if st, ok := ts.Type.(*ast.StructType); ok {
+							fs := []sfield{}
+							for _, f := range st.Fields.List {
+								for _, nm := range f.Names {
+									fs = append(fs, sfield{nm.Name, render(f.Type)})
+								}
+							}
+							p.structs[ts.Name.Name] = fs
+						}
+					}
+				}
 				if d.Tok == token.CONST {
 					var last []ast.Expr
 					var lastType string
@@ -693,40 +710,7 @@ func main() {
 		miss("uu.RandomID not found")
 	}
 	idRen := map[string]string{"i.Higher": "hi", "i.Lower": "lo", "id.Higher": "hi", "id.Lower": "lo"}
-	// Version
-	if fd := u.funcs["ID.Version"]; fd != nil && len(fd.Body.List) == 1 {
-		ret := fd.Body.List[0].(*ast.ReturnStmt)
-		w("def uu_version (hi lo : BitVec 64) : BitVec 64 := %s", exprLean(ret.Results[0], idRen, bv, "uu.Version"))
-	} else {
-		miss("uu.ID.Version: shape")
-	}
-	// Variant: three `if i.Lower&MASK == 0 { return K }` then return 3
-	if fd := u.funcs["ID.Variant"]; fd != nil {
-		var items []string
-		final := ""
-		for _, st := range fd.Body.List {
-			switch st := st.(type) {
-			case *ast.IfStmt:
-				cond, ok := st.Cond.(*ast.BinaryExpr)
-				if !ok || cond.Op != token.EQL {
-					miss("uu.Variant: condition")
-					continue
-				}
-				ret := st.Body.List[0].(*ast.ReturnStmt)
-				items = append(items, fmt.Sprintf("(%s, %s)", exprLeanMaskOf(cond.X, u), u.intOf(ret.Results[0], "Variant")))
-			case *ast.ReturnStmt:
-				final = u.intOf(st.Results[0], "Variant")
-			}
-		}
-		if len(items) == 0 || final == "" {
-			miss("uu.Variant: expected `if i.Lower&MASK == 0 { return K }` statements and a final return")
-		}
-		w("/-- `(mask, result)`: the first entry whose `Lower &&& mask = 0` gives the result, else the final value -/")
-		w("def uu_variantTests : List (BitVec 64 × Nat) := [%s]", strings.Join(items, ", "))
-		w("def uu_variantFinal : Nat := %s", orZero(final))
-	} else {
-		miss("uu.ID.Variant not found")
-	}
+	// ID.Version, ID.Variant: translated statement by statement below (uu_Version, uu_Variant)
 	// DefaultFormatter: five field expressions
 	if fd := u.funcs["DefaultFormatter"]; fd != nil {
 		var call *ast.CallExpr
@@ -825,26 +809,86 @@ func main() {
 
 	// ---------------------------------------------------------------- translated decision functions
 	w("\n-- straight-line decision functions translated statement by statement (tools/extract/translate.go)")
-	dren := map[string]string{"d.year": "dy", "d.month": "dm", "d.day": "dd", "e.year": "ey", "e.month": "em", "e.day": "ed"}
+	// receivers are `$r`, parameters `$1`, `$2`, … (translateFuncX), so renaming them in the source changes nothing
+	dren := map[string]string{"$r.year": "dy", "$r.month": "dm", "$r.day": "dd", "$1.year": "ey", "$1.month": "em", "$1.day": "ed"}
 	dsig := "(dy : Int) (dm dd : Nat) (ey : Int) (em ed : Nat) : Bool"
 	w("%s", translateFunc(d, "Date.After", "date_After", dsig, dren, nil))
 	w("%s", translateFunc(d, "Date.Before", "date_Before", dsig, dren, nil))
 	w("%s", translateFunc(d, "Date.Equal", "date_Equal", dsig, dren, nil))
 	w("%s", translateFunc(d, "Date.IsZero", "date_IsZero", "(dy : Int) (dm dd : Nat) : Bool", dren, nil))
 	w("%s", translateFunc(d, "validDate", "date_validDate", "(year month day : Int) : Bool",
-		map[string]string{"year": "year", "month": "month", "day": "day"}, nil))
+		map[string]string{"$1": "year", "$2": "month", "$3": "day"}, nil))
+	// date filters: method calls on Date-valued fields map to the functions translated above
+	{
+		ymd := []string{"year", "month", "day"}
+		dv := func(p string) sval { return sval{ymd, []string{p + "y", p + "m", p + "d"}} }
+		dt := func(p string) string { return fmt.Sprintf("(%sy : Int) (%sm %sd : Nat)", p, p, p) }
+		dm := map[string]method{"Equal": {"date_Equal", ymd}, "Before": {"date_Before", ymd}, "After": {"date_After", ymd}}
+		w("%s", translateFuncX(d, "filterNo.Contains", "date_filterNo_Contains", dt("x")+" : Bool", nil, nil,
+			trOpts{svals: map[string]sval{"$1": dv("x")}, methods: dm}))
+		w("%s", translateFuncX(d, "filterDate.Contains", "date_filterDate_Contains", dt("d")+" "+dt("x")+" : Bool", nil, nil,
+			trOpts{svals: map[string]sval{"$r.date": dv("d"), "$1": dv("x")}, methods: dm}))
+		w("%s", translateFuncX(d, "filterFrom.Contains", "date_filterFrom_Contains", dt("f")+" "+dt("x")+" : Bool", nil, nil,
+			trOpts{svals: map[string]sval{"$r.from": dv("f"), "$1": dv("x")}, methods: dm}))
+		w("%s", translateFuncX(d, "filterTo.Contains", "date_filterTo_Contains", dt("t")+" "+dt("x")+" : Bool", nil, nil,
+			trOpts{svals: map[string]sval{"$r.to": dv("t"), "$1": dv("x")}, methods: dm}))
+		w("%s", translateFuncX(d, "filterFromTo.Contains", "date_filterFromTo_Contains", dt("f")+" "+dt("t")+" "+dt("x")+" : Bool", nil, nil,
+			trOpts{svals: map[string]sval{"$r.from": dv("f"), "$r.to": dv("t"), "$1": dv("x")}, methods: dm}))
+		// FilterFromTo(from, to *Date): nil tests are Booleans, the chosen filter is `(type name, [its Date fields])`
+		w("%s", translateFuncX(d, "FilterFromTo", "date_FilterFromTo",
+			"(fnil : Bool) "+dt("f")+" (tnil : Bool) "+dt("t")+" : Except String (String × List (Int × Nat × Nat))",
+			map[string]string{"nil:$1": "fnil", "nil:$2": "tnil"}, nil,
+			trOpts{svals: map[string]sval{"$1": dv("f"), "*$1": dv("f"), "$2": dv("t"), "*$2": dv("t")}, methods: dm, errRes: true,
+				lits: map[string]bool{"filterNo": true, "filterDate": true, "filterFrom": true, "filterTo": true, "filterFromTo": true}}))
+	}
+	// date binary form: Go's fixed-width arithmetic over Int (typed.go); the receiver's fields and the bytes are Ints
+	{
+		wraps := map[string]string{"int32": "wrap_int32", "uint8": "wrap_uint8"}
+		w("%s", wrapDefs("int32", "uint8"))
+		dtypes := map[string]string{"$r.year": "int32", "$r.month": "uint8", "$r.day": "uint8", "$1": "[]byte"}
+		dval := map[string]sval{"$r": {[]string{"year", "month", "day"}, []string{"dy", "dm", "dd"}}}
+		w("%s", translateFuncX(d, "Date.MarshalBinary", "date_MarshalBinary", "(dy dm dd : Int) : Except String (List Int)", nil, nil,
+			trOpts{wrap: wraps, types: dtypes, svals: dval, errRes: true}))
+		w("%s", translateFuncX(d, "Date.UnmarshalBinary", "date_UnmarshalBinary", "(dy dm dd : Int) (data : List Nat) : Except String (Int × Int × Int)",
+			map[string]string{"$1": "data"}, map[string]string{"validDate": "date_validDate"},
+			trOpts{wrap: wraps, types: dtypes, svals: dval, errRes: true, recv: "$r"}))
+	}
 	w("%s", translateFunc(s, "Ver.Compare", "sem_Compare",
 		"(cmpPre : List Nat → List Nat → Int) (vM vm vp : Nat) (vpre : List Nat) (wM wm wp : Nat) (wpre : List Nat) : Int",
-		map[string]string{"v.Major": "vM", "v.Minor": "vm", "v.Patch": "vp", "v.PreRelease": "vpre",
-			"ver.Major": "wM", "ver.Minor": "wm", "ver.Patch": "wp", "ver.PreRelease": "wpre"},
+		map[string]string{"$r.Major": "vM", "$r.Minor": "vm", "$r.Patch": "vp", "$r.PreRelease": "vpre",
+			"$1.Major": "wM", "$1.Minor": "wm", "$1.Patch": "wp", "$1.PreRelease": "wpre"},
 		map[string]string{"ComparePreRelease": "cmpPre"}))
+	// sem: Ver values are (Major, Minor, Patch, PreRelease, Build); `panic` → none; bits.Add64 → the 65-bit sum split at 2^64
+	{
+		vf := []string{"Major", "Minor", "Patch", "PreRelease", "Build"}
+		vv := sval{vf, []string{"vM", "vm", "vp", "vpre", "vbuild"}}
+		wv := sval{vf, []string{"wM", "wm", "wp", "wpre", "wbuild"}}
+		vsig := "(vM vm vp : Nat) (vpre vbuild : List Nat)"
+		wsig := "(wM wm wp : Nat) (wpre wbuild : List Nat)"
+		vt := "Nat × Nat × Nat × List Nat × List Nat"
+		one := map[string]sval{"$r": vv}
+		lits := map[string]bool{"Ver": false}
+		w("%s", translateFuncX(s, "Ver.IsZero", "sem_IsZero", vsig+" : Bool", nil, nil, trOpts{svals: one}))
+		w("%s", translateFuncX(s, "Ver.Core", "sem_Core", vsig+" : "+vt, nil, nil, trOpts{svals: one, lits: lits}))
+		for _, f := range []string{"NextMajor", "NextMinor", "NextPatch"} {
+			w("%s", translateFuncX(s, "Ver."+f, "sem_"+f, vsig+" : Option ("+vt+")", nil, nil, trOpts{svals: one, lits: lits, partial: true}))
+		}
+		w("%s", translateFuncX(s, "Ver.Latest", "sem_Latest", "(cmpPre : List Nat → List Nat → Int) "+vsig+" "+wsig+" : "+vt, nil, nil,
+			trOpts{svals: map[string]sval{"$r": vv, "$1": wv}, lits: lits,
+				methods: map[string]method{"Compare": {"sem_Compare cmpPre", vf[:4]}}}))
+	}
+	// uu: uint64 words as naturals below 2^64; only >> and & occur, which need no wrapping
+	uren := map[string]string{"$r.Higher": "hi", "$r.Lower": "lo"}
+	words := trOpts{forbid: []token.Token{token.SHL, token.ADD, token.SUB, token.MUL}}
+	w("%s", translateFuncX(u, "ID.Version", "uu_Version", "(hi lo : Nat) : Nat", uren, nil, words))
+	w("%s", translateFuncX(u, "ID.Variant", "uu_Variant", "(hi lo : Nat) : Nat", uren, nil, words))
 	w("%s", translateFunc(u, "parseDigit", "uu_parseDigit", "(digit : Nat) (allowUpperCase : Bool) : Nat × Bool",
-		map[string]string{"digit": "digit", "allowUpperCase": "allowUpperCase"}, nil))
+		map[string]string{"$1": "digit", "$2": "allowUpperCase"}, nil))
 	w("%s", translateFunc(r, "parseGroup", "roman_parseGroup", "(input : List Nat) (unit digit5 digit10 : Nat) : Nat",
-		map[string]string{"input": "input", "unit": "unit", "digit5": "digit5", "digit10": "digit10"}, nil))
+		map[string]string{"$1": "input", "$2": "unit", "$3": "digit5", "$4": "digit10"}, nil))
 	tk := load(repo, "test")
-	w("%s", translateFunc(tk, "isForMarshal", "test_isForMarshal", "(c : Nat) : Bool", map[string]string{"c": "c"}, nil))
-	w("%s", translateFunc(tk, "isForUnmarshal", "test_isForUnmarshal", "(c : Nat) : Bool", map[string]string{"c": "c"}, nil))
+	w("%s", translateFunc(tk, "isForMarshal", "test_isForMarshal", "(c : Nat) : Bool", map[string]string{"$1": "c"}, nil))
+	w("%s", translateFunc(tk, "isForUnmarshal", "test_isForUnmarshal", "(c : Nat) : Bool", map[string]string{"$1": "c"}, nil))
 
 	// structure facts for C17: unmarshal methods assign through the receiver only after every check
 	{
@@ -861,6 +905,35 @@ func main() {
 			}
 			w("def %s_%s_assignsAfterChecks : Bool := %v", x.p.name, strings.ReplaceAll(x.name, ".", "_"), ok)
 		}
+	}
+
+	// structure facts for C18: the input-limit guard is the first thing done with the input (structure.go)
+	{
+		guard := func(p *pkg, fn string, inputParam int) bool {
+			holds, known := limitCheckedFirst(p.funcs[fn], inputParam)
+			if !known {
+				miss("%s.%s: the input-limit guard is not in a recognised shape", p.name, fn)
+			}
+			return holds
+		}
+		semOK := guard(s, "unmarshalText", 1)
+		for _, e := range []string{"DefaultParser", "ParseVersion", "ParseTag", "Parse"} {
+			if !funnelsInto(s.funcs[e], 0, "unmarshalText") {
+				miss("sem.%s: does not recognisably hand its input straight to unmarshalText", e)
+			}
+		}
+		romanGuard := guard(r, "checkInputLength", 1)
+		for _, e := range []string{"DefaultParser", "Valid"} {
+			if !checksThrough(r.funcs[e], 0, "checkInputLength") {
+				miss("roman.%s: does not recognisably begin with checkInputLength and return its error", e)
+			}
+		}
+		w("def date_limitCheckedFirst : Bool := %v", guard(d, "DefaultParser", 0))
+		w("def roman_limitCheckedFirst : Bool := %v", romanGuard)
+		w("def roman_Valid_limitCheckedFirst : Bool := %v", romanGuard)
+		w("def sem_limitCheckedFirst : Bool := %v", semOK)
+		w("def size_limitCheckedFirst : Bool := %v", guard(z, "DefaultParser", 0))
+		w("def uu_limitCheckedFirst : Bool := %v", guard(u, "DefaultParser", 0))
 	}
 
 	w("\nend U.Gen")
@@ -953,14 +1026,6 @@ func orZero(s string) string {
 		return "0"
 	}
 	return s
-}
-
-func exprLeanMaskOf(e ast.Expr, p *pkg) string {
-	if be, ok := e.(*ast.BinaryExpr); ok && be.Op == token.AND {
-		return bv(p.intOf(be.Y, "Variant.mask"))
-	}
-	miss("uu.Variant: mask shape")
-	return "0#64"
 }
 
 func isCall(st ast.Stmt, recv, method string) bool {
